@@ -93,6 +93,19 @@ def cases(ctx):
             for first in (1, 13, 15):
                 out.append(((3, b"k", None), rep, [first, base + d - first, 4096, 4096, 4096]))
     out.append(((3, b"k", None), rep, [4096] * 4))
+    # raw_command replies whose length is a multiple of the receive size (every recv() comes back full, the last one included), and
+    # line replies (stats) of such lengths
+    tok = b"\n\r\nEND\r\n"
+    for total in (4096, 8192, 4196, 4095, 4097):
+        head = b"CONFIG cluster 0 %d\r\n1\n" % total
+        rep2 = head + b"h" * (total - len(head) - len(tok)) + tok
+        for sizes in ([4096] * 4, [total], [4095, 1, 4096, 4096], [1, 4095, 4096, 4096], [4096, 1, 4095, 4096], [2048, 2048, 4096, 4096]):
+            out.append(((16, b"config get cluster", tok), rep2, sizes))
+        lines = b"".join(b"STAT k%04d v\r\n" % i for i in range(400))
+        rep3 = lines[:total - 5 - ((total - 5) % 14)]
+        rep3 = rep3 + b"STAT p " + b"x" * (total - len(rep3) - 7 - 2 - 5) + b"\r\nEND\r\n"
+        for sizes in ([4096] * 4, [4095, 1, 4096, 4096]):
+            out.append(((18, []), rep3, sizes))
     return out
 
 
